@@ -397,6 +397,25 @@ Proof.
 Qed.
 Print Assumptions end_block_declares_before_it_prunes.
 
+(** ---- fifth round ---- *)
+
+(** A declared message leaves the queue (with its effects) exactly when the attester returns nil, "transaction
+    not verified" or "transaction failed"; and no error built on the attest paths of x/evm/keeper flattens a
+    wrapped error (liberr Join/JoinErrorf over an error, fmt.Errorf without %w are refused by the translator), so
+    these sentinels reach the test.  (Seeded change C04-L.)  In the history model every winner removes the request. *)
+Theorem declared_message_is_removed :
+  Gen.C04.attest_flush_condition =
+    "retErr == nil || errors.Is(retErr, types.ErrEthTxNotVerified) || errors.Is(retErr, types.ErrEthTxFailed)"%string /\
+  In "attest.go: tx failed to verify: %w"%string Gen.C04.attest_error_wraps /\
+  forall (K : Type) (keqb : K -> K -> bool) (h : Z -> Z -> K) (s : @EvidenceHistory.att_state) sn ord w,
+    EvidenceHistory.as_won s = None ->
+    verify_evidence keqb (code_key h) ord sn (map EvidenceBytes.ev_of (EvidenceHistory.as_evs s)) = Winner w ->
+    EvidenceHistory.as_won (@EvidenceHistory.att_step K keqb h s (EvidenceHistory.AoProcess sn ord)) = Some w.
+Proof.
+  exact (conj eq_refl (conj (or_intror (or_introl eq_refl)) (@EvidenceHistoryProofs.winner_removes))).
+Qed.
+Print Assumptions declared_message_is_removed.
+
 
 (* --- source translation tie (GenFn) --- *)
 (* The Go function bodies named below are re-translated from the source on every check
